@@ -842,6 +842,10 @@ class Channel(ClosingContextManager):
         """
         while s:
             sent = self.send(s)
+            if sent == 0:
+                # send() reports a closed or shut-down stream by returning 0;
+                # retrying could never make progress.
+                raise socket.error("Socket is closed")
             s = s[sent:]
         return None
 
@@ -863,6 +867,10 @@ class Channel(ClosingContextManager):
         """
         while s:
             sent = self.send_stderr(s)
+            if sent == 0:
+                # send() reports a closed or shut-down stream by returning 0;
+                # retrying could never make progress.
+                raise socket.error("Socket is closed")
             s = s[sent:]
         return None
 
